@@ -16,3 +16,20 @@ def by_name(name):
         if c.__name__ == name:
             return c
     raise KeyError(name)
+
+
+P = "proof"
+CLAIMS = {
+    'C03': dict(level=P, text="Every obligation generated from the current text of Comparator._invert_ (setter), Not and "
+                "DomainMapping._evaluate__ is discharged for all operand states: Den_post(Not(c)) == not Den_pre(c) for every "
+                "operand class and every operator, including already inverted operands (so Not(Not(c)) means c), and the "
+                "evaluators honour the inverted operator / flag.",
+                note="order operators read through a total order `key` (DESIGN 2.2); membership uninterpreted; structural "
+                     "induction over the tree (A9); recursion of Not assumed by its own contract (measure: height)"),
+    'C19': dict(level=P, text="R5/C1 of the interface contract at every value-position call site: DomainMapping (attribute, "
+                "index, call, flatten), Comparator operands, selected expressions in QueryObjectDescriptor/Entity/SetOf "
+                "deliver a row for every binding whatever truthy(value) is; `truthy` is an unconstrained function in the "
+                "encoding, so any truthiness guard on a value path yields a counter-model.",
+                note="constructor arguments of inferred variables (C11) are outside this check; T1, T3 tree-shape assumptions"),
+}
+NOT_APPLICABLE = {}
